@@ -34,6 +34,9 @@ RULE = ("exhaustive over the finite colour space: the 8 names x fg/bg, all 256 i
         "(a changed text is re-rendered after about half of the changes) + ~450 systematic ones: render / change / render twice for "
         "every kind of += x every seam (same colour = merge into the last chunk, other colour, plain after plain, empty piece, first "
         "piece, several), copy and source changed separately, one piece in two texts, text added to itself, x + p leaves x alone.  "
+        "Kind 'pad' (160 per quick run): format(obj, [[fill]align][width][s]) spelled format() / f-string / str.format, obj = the "
+        "bare chunk ColorFmt(..)(text) (3 of 4) or CHText(chunk), formatters with background / effects / colours, visible and blank "
+        "fill characters, widths around and above len(text): every fill character must be shown in the terminal's default state.  "
         "Non-trivial = distinct case in which a formatter is constructed or a string containing ESC is stripped (for a history: "
         "a coloured piece and at least one observation).")
 TRUSTED_BASE = [
@@ -610,7 +613,19 @@ def coq_case(case, obs):
         return f"Text {_clist(items)}"
     if k == "seq":
         return _coq_seq(case)
+    if k == "pad":
+        left, right = _pad_lr(case["text"], case["spec"])
+        return f"Pad {_coq_args(case['args'])} {SX.cstr(case['text'])} {SX.cstr(left)} {SX.cstr(right)}"
     return f"Strip {SX.cstr(case['s'])}"
+
+
+def _pad_lr(text, spec):
+    """the fill characters str.__format__ puts before / behind a str of this length (the spec is of the form
+    [[fill]align][width][s], the fill is never NUL)"""
+    n = len(text)
+    w = format("\x00" * n, spec)
+    left = w.index("\x00")
+    return w[:left], w[left + n:]
 
 
 def _cnats(ns):
@@ -656,7 +671,7 @@ def _coq_seq(case):
 
 
 def _strings(case):
-    if case["k"] == "fmt":
+    if case["k"] in ("fmt", "pad"):
         return [case["text"]]
     if case["k"] == "seq":
         return [pc["text"] for pc in case["pieces"]] + [op[2] for op in case["ops"] if op[0] == "b"]
@@ -671,7 +686,7 @@ def _all_colors(case):
         for a in case["fmts"]:
             out += [a.get("color"), a.get("bg")]
         return out
-    for a in ([case["args"]] if case["k"] == "fmt" else [it["args"] for it in case.get("items", []) if "args" in it]):
+    for a in ([case["args"]] if case["k"] in ("fmt", "pad") else [it["args"] for it in case.get("items", []) if "args" in it]):
         out += [a.get("color"), a.get("bg")]
     return out
 
@@ -720,6 +735,25 @@ def impl_run(case):
         return obs
     if k == "seq":
         return _impl_seq(case, ColorFmt, ColorBytes, CHText)
+    if k == "pad":
+        # format with fill / align / width of the bare chunk a formatter returns, or of the one-chunk text
+        color, kw = _kwargs(case["args"])
+        spec = case["spec"]
+        try:
+            chunk = ColorFmt(color, **kw)(case["text"])
+            obj = chunk if case["bare"] else CHText(chunk)
+            how = case.get("how", "format")
+            if how == "fstr":
+                s = f"{obj:{spec}}"
+            elif how == "strformat":
+                s = "{:{}}".format(obj, spec)
+            else:
+                s = format(obj, spec)
+            if not isinstance(s, str):
+                raise TypeError("format result is not a str")
+            return {"r": ["ok", s, CHText.strip_colors(s)], "str": str(obj)}
+        except BaseException as e:  # noqa
+            return {"r": _exc(e)}
     # CHText of several parts
     parts = []
     strs = []
@@ -899,6 +933,8 @@ def expected_sx(case, obs):
     r = obs["r"]
     if r[0] != "ok":
         return SX.dumps(SX.err(r[1]))
+    if k == "pad":
+        return SX.dumps(SX.ok([SX.s(r[1]), SX.s(r[2]), _sx_term(r[1])]))
     if k == "seq":
         res = []
         obs_ops = [op for op in case["ops"] if op[0] in ("r", "rp", "b")]
@@ -1046,6 +1082,8 @@ def _oracle(case, obs):
         return out
     if k == "seq":
         return _oracle_seq(case, obs)
+    if k == "pad":
+        return _oracle_pad(case, obs)
     if k == "fmt":
         args, text = case["args"], case["text"]
         status, want = _want(args)
@@ -1118,6 +1156,47 @@ def _oracle(case, obs):
         out.append(("plain-text", f"{label}: plain_text() = {plain!r}, len = {ln}; parts are {texts!r}"))
     if stripped != plain:
         out.append(("strip-leaves-sequence", f"strip_colors({s!r}) = {stripped!r}, plain_text() = {plain!r}"))
+    return out
+
+
+def _oracle_pad(case, obs):
+    """format(obj, '[[fill]align][width][s]') of a bare chunk / a one-chunk text: the reference terminal shows
+    format(text, spec); the characters of the text have the requested attributes, every fill character is shown in
+    DEFAULT state (colour is switched off after the chunk and not yet on before it), the terminal ends in default state"""
+    out = []
+    args, text, spec = case["args"], case["text"], case["spec"]
+    status, want = _want(args)
+    if status not in ("valid", "nocolor") or ESC in text:
+        return out
+    what = "ColorFmt(..)(text)" if case["bare"] else "CHText(ColorFmt(..)(text))"
+    label = f"format({what}, {spec!r}) [{case.get('how', 'format')}] with ColorFmt({_descr(args)}), text {text!r}"
+    r = obs["r"]
+    plain = format(text, spec)
+    if r[0] != "ok":
+        out.append(("format-raises", f"{label} raised {r[1]}; format({text!r}, {spec!r}) = {plain!r}"))
+        return out
+    s = r[1]
+    t = py_term(s)
+    if t["bad"] or not t["ground"]:
+        out.append(("malformed-sgr", f"{label}: {s!r} contains a sequence an ECMA-48 terminal does not understand"))
+    elif t["attrs"] != DEFAULT_ATTRS:
+        out.append(("bleed", f"{label}: terminal is left in state {t['attrs']} after {s!r}"))
+    if r[2] != plain or CHText_strip_ref(s) != plain:
+        out.append(("format-visible", f"{label}: strip_colors of the result is {r[2]!r}, format of the plain text {plain!r}"))
+        return out
+    if [c for c, _ in t["shown"]] != [ord(ch) for ch in plain]:
+        out.append(("format-visible", f"{label}: {s!r} shows {''.join(chr(c) for c, _ in t['shown'])!r}, expected {plain!r}"))
+        return out
+    left = len(_pad_lr(text, spec)[0])
+    for i, (c, a) in enumerate(t["shown"]):
+        if left <= i < left + len(text):
+            if a != want:
+                out.append(("wrong-attrs", f"{label}: character {chr(c)!r} of the text (column {i}) is shown with {a}, requested {want}: {s!r}"))
+                break
+        elif a != DEFAULT_ATTRS:
+            out.append(("padding-bleed", f"{label}: fill character {chr(c)!r} at column {i} is shown with attributes {a} "
+                                         f"instead of the default state -- the chunk's colour is active in the padding: {s!r}"))
+            break
     return out
 
 
@@ -1507,6 +1586,29 @@ def _seq_templates(rng):
     return out
 
 
+PAD_FILLS = [" ", "*", "0", "x", "_", ".", "<", ">", "^", "s", "m", "[", ";", "7", "é", "中", "\t"]
+
+
+def _pad_case(rng, i):
+    """format(obj, [[fill]align][width][s]); obj = the chunk ColorFmt(..)(text) (3 of 4) or CHText(chunk); the formatter
+    has a background / an effect / a colour (a visible fill character shows a colour too); width mostly > len(text)"""
+    r = rng.random()
+    a = {"color": _valid_color(rng)}
+    if r < 0.45:
+        a["bg"] = _valid_color(rng) or {"s": rng.choice(ANSI_NAMES)}
+    if r > 0.3:
+        a.update(_effects(rng.randrange(1, 32)))
+    if rng.random() < 0.06:
+        a["no_color"] = True
+    text = _text(rng, 1, 5)
+    align = rng.choice(["", "", "<", ">", "^", ">", "^"])
+    fill = rng.choice(PAD_FILLS) if align and rng.random() < 0.6 else ""
+    width = rng.choice([0, len(text), len(text) + 1, len(text) + 2, len(text) + 3, len(text) + rng.randint(1, 7), rng.randint(1, 12)])
+    spec = fill + align + (str(width) if width else "") + rng.choice(["", "", "s"])
+    return {"k": "pad", "args": a, "text": text, "spec": spec, "bare": i % 4 != 3,
+            "how": rng.choice(["format", "format", "fstr", "strformat"])}
+
+
 def gen_cases(rng, tier):
     big = tier == "thorough"
     cases = []
@@ -1615,6 +1717,9 @@ def gen_cases(rng, tier):
             fm = [{"color": None, slot: first, "bold": True}, {"color": None, slot: second, "bold": True}]
             cases.append({"k": "seq", "fmts": fm, "pieces": [{"f": 0, "text": "a"}, {"f": 1, "text": "b"}], "n": 1,
                           "ops": [["rp", 0], ["rp", 1], ["b", 0, "c"], ["b", 1, "d"]]})
+    # --- round 5: fill / align / width applied to the bare chunk a formatter returns and to the one-chunk text
+    for i in range(1500 if big else 160):
+        cases.append(_pad_case(rng, i))
     # --- strip_colors on arbitrary strings (model fidelity of the pattern; no claim)
     alpha = [ESC, ESC, "[", "[", ";", ":", "0", "1", "3", "8", "m", "m", "a", "K", "?", " ", "é", "\n"]
     for _ in range(2000 if big else 250):
@@ -1636,7 +1741,7 @@ def nontrivial(case, obs):
         return ESC in case["s"]
     if case["k"] == "seq":
         return any(pc.get("f") is not None for pc in case["pieces"]) and any(op[0] in ("r", "rp", "b") for op in case["ops"])
-    if case["k"] == "fmt":
+    if case["k"] in ("fmt", "pad"):
         a = case["args"]
         return any(a.get(k) for k in ["color", "bg"] + EFFECTS)
     return any("args" in it for it in case["items"])
